@@ -13,6 +13,7 @@ Permutation behaviour of the exact signs is in `Lemmas/DetBridge` and re-exporte
 -/
 import DelaunayModel.Model.Pred
 import DelaunayModel.Lemmas.DetBridge
+import DelaunayModel.Lemmas.LiftedAux
 namespace DM.C12
 
 open DM
@@ -89,5 +90,60 @@ theorem insphere_perm_invariant {D : Nat} {s s' : List IPt} {q : IPt} (hl : s.le
 scaled by 4: exact in-sphere determinant ≠ 0) on which the oracle commits -/
 example : expected 1 1 (insphereDet [[0,0],[4,0],[0,4]] [1,1]) = some 1 := by decide
 example : expected 1 1 (insphereDet [[0,0],[4,0],[0,4]] [4,4]) = some 0 := by decide
+
+/-! ### the lifted formulation (`insphere_lifted`) against the standard in-sphere determinant
+
+`liftedRows s q` (Model/Det.lean, used by `predExpect`) is the `(D+1) × (D+1)` matrix of
+coordinates relative to the first vertex with the squared norm of the relative vector last;
+`insphereRows s q` is the `(D+2) × (D+2)` matrix `[p | ‖p‖² | 1]`.  In every dimension `D` their
+exact determinants agree up to the sign `liftedParity D = (−1)^(D+1)` (`-1` for even `D`, `+1` for
+odd `D`) — exactly the `parity` factor `predExpect` applies. -/
+
+/-- **lifted = ± standard**, every dimension `D`: `liftedParity D = if D % 2 == 0 then -1 else 1` -/
+theorem lifted_eq_insphere {D : Nat} {s : List IPt} {q : IPt} (hl : s.length = D + 1)
+    (hs : ∀ p ∈ s, p.length = D) (hq : q.length = D) :
+    liftedDet s q = liftedParity D * insphereDet s q :=
+  liftedDet_eq hl hs hq
+
+/-- the sign `c(D)` spelled out -/
+theorem liftedParity_def (D : Nat) : liftedParity D = if D % 2 == 0 then -1 else 1 := rfl
+
+theorem liftedParity_eq_pow (D : Nat) : liftedParity D = (-1) ^ (D + 1) := liftedParity_eq D
+
+/-- sign form: the exact signs of the two formulations differ by `liftedParity D` -/
+theorem lifted_sign_eq {D : Nat} {s : List IPt} {q : IPt} (hl : s.length = D + 1)
+    (hs : ∀ p ∈ s, p.length = D) (hq : q.length = D) :
+    sgn (liftedDet s q) = liftedParity D * sgn (insphereDet s q) := by
+  rw [lifted_eq_insphere hl hs hq]
+  unfold liftedParity
+  split
+  · rw [neg_one_mul, neg_one_mul, sgn_neg]
+  · rw [one_mul, one_mul]
+
+/-- consequently the orientation-normalised lifted sign, as `predExpect` forms it
+(`i * parity * o`), is the exact in-sphere sign -/
+theorem lifted_sign_normalised {D : Nat} {s : List IPt} {q : IPt} (hl : s.length = D + 1)
+    (hs : ∀ p ∈ s, p.length = D) (hq : q.length = D) :
+    sgn (liftedDet s q) * liftedParity D * orientSign s = insphereSign s q := by
+  rw [lifted_sign_eq hl hs hq, mul_comm (liftedParity D) (sgn _), mul_assoc (sgn _),
+    liftedParity_mul_self, mul_one]
+  rfl
+
+/-- the exact in-sphere determinant is invariant under translating all points by `t`
+(`vadd p t = List.zipWith (· + ·) p t`) -/
+theorem insphereDet_translate {D : Nat} {s : List IPt} {q t : IPt} (hl : s.length = D + 1)
+    (hs : ∀ p ∈ s, p.length = D) (hq : q.length = D) (ht : t.length = D) :
+    insphereDet (s.map (vadd · t)) (vadd q t) = insphereDet s q :=
+  insphereDet_translate' hl hs hq ht
+
+/-- non-vacuity: concrete instances in D = 1, 2, 3 with both sides equal and non-zero -/
+example : liftedDet [[1,2],[5,1],[2,7]] [3,3] = -204 ∧
+    liftedParity 2 * insphereDet [[1,2],[5,1],[2,7]] [3,3] = -204 := by decide
+example : liftedDet [[3],[7]] [5] = -16 ∧ liftedParity 1 * insphereDet [[3],[7]] [5] = -16 := by
+  decide
+example : liftedDet [[1,2,3],[5,1,0],[2,7,1],[0,1,8]] [3,3,3] = -2746 ∧
+    liftedParity 3 * insphereDet [[1,2,3],[5,1,0],[2,7,1],[0,1,8]] [3,3,3] = -2746 := by decide
+example : insphereDet ([[1,2],[5,1],[2,7]].map (vadd · [10,-4])) (vadd [3,3] [10,-4]) = 204 ∧
+    insphereDet [[1,2],[5,1],[2,7]] [3,3] = 204 := by decide
 
 end DM.C12
